@@ -349,6 +349,19 @@ def rule_identity(ctx):
         R.ob('I1-eq-any', b.path, ok, 'eq_any is true exactly for a value of the same concrete type that compares equal (3 shapes evaluated)' if ok else why, ctx.where(b), props=P,
              status=None if ok or not why.startswith('UNDECIDED') else 'UNDECIDED')
     # I2 dyn PartialEq / Hash impls delegate
+    def through_upcasts(b, operand, depth=0):
+        """origins of an operand, looking through calls of local trait methods that return `self` as another trait object
+        (e.g. TaskObj::as_key_obj: `self as &dyn KeyObj` in every implementation)"""
+        out = set()
+        for o in b.orig_operand(operand):
+            if o.kind == 'call' and depth < 3:
+                c = b.calls[o.key]
+                cands = F.callee_candidates(c)
+                if c.args and cands and all(x.argc == 1 and x.orig_local(0) and all(q.kind == 'arg' and q.key == 1 and not q.path for q in x.orig_local(0)) for x in cands):
+                    out |= through_upcasts(b, c.args[0], depth + 1)
+                    continue
+            out.add(o)
+        return out
     n = 0
     for b in F.bodies.values():
         if b.crate != 'pie' or b.is_test_code() or b.kind != 'AssocFn' or not b.impl_self:
@@ -367,12 +380,20 @@ def rule_identity(ctx):
                         asany = [b.calls[q.key] for q in a1 if q.kind == 'call']
                         good = all(q.kind == 'arg' and q.key == 1 for q in a0) and len(asany) == 1 and asany[0].qname == 'pie::trait_object::base::AsAny::as_any' and \
                             all(q.kind == 'arg' and q.key == 2 for q in b.orig_operand(asany[0].args[0])) and (c.self_ty or '').startswith('dyn ') and (asany[0].self_ty or '').startswith('dyn ')
+                    elif c.qname == 'std::cmp::PartialEq::eq' and len(c.args) == 2 and (c.self_ty or '').lstrip('&').startswith('dyn ') and any(x in (c.self_ty or '') for x in DYN_OBJS):
+                        # delegation to the equality of another trait-object view of the same values (itself an I2-eq instance)
+                        a0 = through_upcasts(b, c.args[0])
+                        a1 = through_upcasts(b, c.args[1])
+                        good = bool(a0) and bool(a1) and all(q.kind == 'arg' and q.key == 1 for q in a0) and all(q.kind == 'arg' and q.key == 2 for q in a1)
             R.ob('I2-eq', b.path + '@' + b.impl_self, good and len(rets) == 1, 'equality of trait objects is eq_any(self, other.as_any()) on the unboxed values' if good
                  else 'dyn equality does not delegate to eq_any on the unboxed values', ctx.where(b), props=P)
         if b.impl_trait == 'std::hash::Hash' and b.name == 'hash' and dyn_self:
             n += 1
             cs = b.find_calls(lambda c: c.qname == 'pie::trait_object::base::HashObj::hash_obj')
             good = len(cs) == 1 and all(q.kind == 'arg' and q.key == 1 for q in b.orig_operand(cs[0].args[0])) and (cs[0].self_ty or '').startswith('dyn ')
+            if not cs:
+                hs = b.find_calls(lambda c: c.qname == 'std::hash::Hash::hash' and (c.self_ty or '').lstrip('&').startswith('dyn ') and any(x in (c.self_ty or '') for x in DYN_OBJS))
+                good = len(hs) == 1 and bool(through_upcasts(b, hs[0].args[0])) and all(q.kind == 'arg' and q.key == 1 for q in through_upcasts(b, hs[0].args[0]))
             R.ob('I2-hash', b.path + '@' + b.impl_self, good, 'hashing a trait object hashes the concrete value' if good else 'dyn Hash does not delegate to hash_obj of the value', ctx.where(b), props=P)
     R.floor('I2', 'dyn PartialEq/Hash impls', n, 7, props=P)
     for b in F.bodies.values():
@@ -571,6 +592,11 @@ def rule_map(ctx):
             if x.kind == 'Closure':
                 for (bb, si, pl, rv, ln) in x.stores:
                     if all(o.kind == 'arg' and o.key == 2 for o in x.orig_local(pl[0])):
+                        repl.append((x, bb))
+            else:
+                # `let v = occupied.into_mut(); ... *v = new` (also get_mut): a store through the reference into the occupied slot
+                for (bb, si, pl, rv, ln) in x.stores:
+                    if any(o.kind == 'call' and x.calls[o.key].name in ('into_mut', 'get_mut') and 'OccupiedEntry' in (x.calls[o.key].impl_self or '') for o in x.orig_local(pl[0])):
                         repl.append((x, bb))
             for c in x.calls.values():
                 if c.name == 'insert' and 'OccupiedEntry' in (c.impl_self or ''):
